@@ -176,7 +176,19 @@ func c08History(r *core.Run, p C08Case) {
 	}
 	r.Trace(1)
 	r.Eval(core.Hash(sb.b, len(p.Hist)))
-	r.Nontrivial(core.Hash(st, len(sb.b) > 1, fail))
+	// non-trivial: distinct (final state, call-class history, chunk-kind sequence of the output)
+	hs := ""
+	for _, op := range p.Hist {
+		hs += opClass(op)[:1] + opClass(op)[len(opClass(op))-2:]
+	}
+	ks := ""
+	rr := ref.DecodeLZMA2(append(append([]byte(nil), sb.b...), 0), uint32(dcap), false)
+	for _, c := range rr.Chunks {
+		if len(ks) < 20 {
+			ks += fmt.Sprint(int(c.Kind))
+		}
+	}
+	r.Nontrivial(core.Hash(st, hs, ks, fail))
 }
 
 func opClass(op string) string {
